@@ -381,7 +381,7 @@ def step (mode : String) (line : String) : String :=
   match (line.trimAscii.toString.splitOn " ").filter (· ≠ "") with
   | [] => "bad-op"
   | op :: args =>
-    let op := stripAt op
+    let op := if op.startsWith "ffraw." || op.startsWith "ffgraw." then op else stripAt op
     let r := if mode = "spec" then specOp op args else modelOp op args
     r.getD "bad-op"
 
